@@ -384,7 +384,7 @@ void mmd_export_image_latex(DString * out, const char * source, token * text, li
 
 		if (width) {
 			// Width specified
-			if (width[strlen(width) - 1] == '%') {
+			if (strlen(width) && (width[strlen(width) - 1] == '%')) {
 				// specified as percent
 				width[strlen(width) - 1] = '\0';
 				temp_float = strtod(width, NULL);
@@ -402,7 +402,7 @@ void mmd_export_image_latex(DString * out, const char * source, token * text, li
 
 		if (height) {
 			// Height specified
-			if (height[strlen(height) - 1] == '%') {
+			if (strlen(height) && (height[strlen(height) - 1] == '%')) {
 				// specified as percent
 				height[strlen(height) - 1] = '\0';
 				temp_float = strtod(height, NULL);
